@@ -82,7 +82,7 @@ def async_call(peer, op, vbs, as_report):
 
     async def main(port):
         from gufo.snmp.async_client import SnmpSession
-        async with SnmpSession("127.0.0.1", port=port, timeout=0.3, **c18.session_kwargs(peer)) as s:
+        async with SnmpSession("127.0.0.1", port=port, timeout=1.0, **c18.session_kwargs(peer)) as s:
             if op == "get":
                 return await s.get("1.3.6.1.2.1.1.5.0")
             return await s.get_many(["1.3.6.1.2.1.1.5.0", "1.3.6.1.2.1.1.6.0"])
